@@ -151,6 +151,16 @@ def script_for(subset, tsrc, data):
 _CACHE = {}
 
 
+def guarded(fn, first=15, second=180):
+    """per-case alarm; a stalled machine is not a finding, so one retry with a long limit."""
+    try:
+        with core.alarm(first):
+            return fn()
+    except core.CaseTimeout:
+        with core.alarm(second):
+            return fn()
+
+
 def compiled(cls, tsrc):
     """one fresh environment + compiled template per template source (reused for the data assignments)."""
     hit = _CACHE.get((cls, tsrc))
@@ -159,8 +169,7 @@ def compiled(cls, tsrc):
             _CACHE.clear()
         env = cls()
         try:
-            with core.alarm(10):
-                hit = (env, env.from_string(tsrc), None)
+            hit = (env, guarded(lambda: env.from_string(tsrc)), None)
         except core.CaseTimeout:
             hit = (env, None, "CaseTimeout")
         except Exception as e:  # noqa: BLE001
@@ -185,9 +194,12 @@ def judge(cls, subset, ast, placement, di, p=None):
     if tmpl is None:
         got = ("exc", cerr)
     else:
+        def once():
+            del glog[:]
+            return tmpl.render(**data)
+
         try:
-            with core.alarm(10):
-                got = ("ok", tmpl.render(**data))
+            got = ("ok", guarded(once))
         except core.CaseTimeout:
             got = ("exc", "CaseTimeout")
         except Exception as e:  # noqa: BLE001
